@@ -152,6 +152,15 @@ def to_z3(v):
     raise Unsupported("to_z3(%r)" % (v,))
 
 
+def list_elem(o):
+    """element function of an abstract list object: a z3 array field `arr` (mergeable
+    across branches) or a python callable `elem`"""
+    if "arr" in o.f:
+        arr = o.f["arr"]
+        return lambda i, arr=arr: z3.Select(arr, to_z3(i))
+    return o.f["elem"]
+
+
 def zand(*cs):
     cs = [c for c in cs if not (isinstance(c, bool) and c)]
     if any(isinstance(c, bool) and not c for c in cs):
@@ -380,6 +389,18 @@ class Executor(object):
             return out
         if isinstance(st, ast.AugAssign):
             load = _as_load(st.target)
+            if isinstance(st.op, ast.Add) and isinstance(st.target, ast.Name) and isinstance(p.env.get(st.target.id), Ref):
+                # x += y on an object with __iadd__: x = x.__iadd__(y)
+                lref = p.env[st.target.id]
+                fn = self.program.find_method(p.obj(lref).cls, "__iadd__")
+                if fn is not None:
+                    out = []
+                    for p1, rv in self.ev(st.value, p, fctx):
+                        for p2, v in self.call_func(Func(fn.qual, fn.node, fn.module, cls=fn.cls, recv=lref), [rv], {}, p1, ln):
+                            p2 = p2.fork()
+                            p2 = self.assign(st.target, v, p2, fctx, ln)
+                            out.append((p2, "normal", None))
+                    return out
             binop = ast.BinOp(left=load, op=st.op, right=st.value)
             ast.copy_location(binop, st)
             ast.fix_missing_locations(binop)
@@ -709,7 +730,7 @@ class Executor(object):
                 if isinstance(idx, int) and idx < 0:
                     i = n + idx
                 self.oblige(p, "index-in-range", z3.And(i >= 0, i < n), ln, "safety")
-                return o.f["elem"](i)
+                return list_elem(o)(i)
             if o.cls == "record":
                 return o.f["items"][idx]
             if o.cls in ("dict", "Counter"):
@@ -730,6 +751,15 @@ class Executor(object):
         if isinstance(base, Ref) and p.obj(base).cls == "list" and "items" in p.obj(base).f and (lo is None or isinstance(lo, int)) and (hi is None or isinstance(hi, int)):
             p.mut += 1
             return p.new_obj("list", {"items": p.obj(base).f["items"][lo:hi]})
+        if isinstance(base, Ref) and p.obj(base).cls == "list" and "len" in p.obj(base).f and lo is None and isinstance(hi, int) and hi == -1:
+            # xs[:-1] of an abstract list: the same elements, one fewer (none if empty)
+            o = p.obj(base)
+            n = o.f["len"]
+            f2 = dict(o.f)
+            f2["len"] = z3.If(n >= 1, n - 1, 0)
+            f2.pop("on_append", None)
+            p.mut += 1
+            return p.new_obj("list", f2)
         if isinstance(base, Ref) and p.obj(base).cls == "bytearray":
             s = p.obj(base).f["content"]
             r = self.seq_slice(s, lo, hi, p, ln)
